@@ -3,7 +3,8 @@ Spec: NixFile.tla (Flush / Close save the tree; Crash loses the session, keeps d
 flush; DurableAfterFlush, FlushSaves, CloseSaves; after Close every earlier handle is dead).  Binding: the history runs in a
 child process that kills itself with SIGKILL at the Crash step while holding handles to every entity created in the session;
 the parent reopens (rw / ro / Overwrite) and compares the full observation; after Close every retained handle must throw on a
-getter and on a mutator, and the file must reopen in the same process."""
+getter and on a mutator, and the file must reopen in the same process.  On every third line a second File object on the same
+path is open (read-only) in the process while the session closes, and is closed right before / after it."""
 import file_common
 
 def run(chk, replay=None):
@@ -21,5 +22,5 @@ def run(chk, replay=None):
                 '(flush, close, crash = SIGKILL of the writing child process, reopen in rw / ro / overwrite), BFS exhaustive within bounds, plus '
                 'such steps of random behaviours over the whole vocabulary; crash points = every operation boundary at which nothing was '
                 'modified since the last flush / open')
-    file_common.run_file_check(chk, cfgs, sims, judge=judge, replay=replay, coverage=['Close', 'Crash', 'Open', 'pre:Flush', 'pre:Crash'])
+    file_common.run_file_check(chk, cfgs, sims, judge=judge, replay=replay, opts={'two_files': True}, coverage=['Close', 'Crash', 'Open', 'pre:Flush', 'pre:Crash'])
     chk.exhaustive = False
